@@ -27,3 +27,12 @@ package criteria_splitting
 //@   ensures  c.Min <= pivot(n, c) && pivot(n, c) <= c.Max
 //@   ensures  (c.Min <= floor(real(n) * c.Ratio) && floor(real(n) * c.Ratio) <= c.Max) ==> pivot(n, c) == floor(real(n) * c.Ratio)
 //@   ensures  real(floor(real(n) * c.Ratio)) <= real(n) * c.Ratio && real(n) * c.Ratio < real(floor(real(n) * c.Ratio)) + 1.0
+
+// Parse: every bound is what the request says; an absent max means no upper bound, an absent min / ratio means 0
+//@ func Parse
+//@   property C15 C16 C20
+//@   ensures [as_requested_defaults_for_absent_keys] fresh(result)
+//@             && result.Max == (decoded_has(*props, "Max") ? decoded_int(*props, "Max") : 9223372036854775807)
+//@             && result.Min == (decoded_has(*props, "Min") ? decoded_int(*props, "Min") : 0)
+//@             && result.Ratio == (decoded_has(*props, "Ratio") ? decoded_real(*props, "Ratio") : 0.0)
+//@   ensures [validated] 0.0 <= result.Ratio && result.Ratio <= 1.0 && result.Min <= result.Max
